@@ -68,140 +68,121 @@ Proof.
     destruct (hasContent _ _); discriminate.
 Qed.
 
+(* the response the hint closure produces once it has left its loop with handler h *)
+Definition hint_resp (h : option handler) : response :=
+  match h with
+  | None => R404
+  | Some (HPart k id) => R200Part k id
+  | Some (HSeg k id) => R200Seg k id
+  | Some _ => RNone
+  end.
+
 Section Local.
   Variables (m : mux) (w : wpc) (n : Z) (i : nat).
   Hypothesis HP : hint_prop m.
 
   Notation it := (literate m w n i).
 
-  Lemma prog_unlock : forall r o resp, r_pc r = PUnlock resp ->
-    r_pc (fst (it 1%nat r o)) = PDone resp /\ snd (it 1%nat r o) = None /\
-    r_leaked (fst (it 1%nat r o)) = r_leaked r.
-  Proof. intros r o resp H. simpl. unfold lstep. rewrite H. simpl. auto. Qed.
-
   (* from the loop test *)
-  Lemma prog_test : forall r o f, r_pc r = PTest f -> r_leaked r = false ->
+  Lemma prog_test : forall r o f, r_pc r = PTest f ->
     exists k, (k <= 3)%nat /\
       let r' := fst (it k r o) in let o' := snd (it k r o) in
       match test m (req_query (r_req r)) f with
-      | TExit resp => r_pc r' = PDone resp /\ o' = None /\ r_leaked r' = false /\ r_waits r' = r_waits r
-      | TLeak resp => r_pc r' = PDone resp /\ o' = o /\ r_leaked r' = true /\ r_waits r' = r_waits r
-      | TBreakHint h => (exists resp, r_pc r' = PDone resp /\ is_200 resp = true) /\ o' = None /\
-                        r_leaked r' = false /\ r_waits r' = r_waits r
-      | TWait => r_pc r' = PWaiting f /\ o' = None /\ r_leaked r' = false /\ r_waits r' = S (r_waits r)
+      | TExit resp => r_pc r' = PDone resp /\ o' = None /\ r_waits r' = r_waits r
+      | TBreakHint h => r_pc r' = PDone (hint_resp h) /\ o' = None /\ r_waits r' = r_waits r
+      | TWait => r_pc r' = PWaiting f /\ o' = None /\ r_waits r' = S (r_waits r)
       end.
   Proof.
-    intros r o f H L. destruct (test m (req_query (r_req r)) f) eqn:Et.
-    - set (r1 := decided m n r (PUnlock r0) false).
+    intros r o f H. destruct (test m (req_query (r_req r)) f) eqn:Et.
+    - set (r1 := decided m n r (PUnlock r0)).
       assert (E1 : lstep m w n i r o = (r1, o)) by (unfold lstep; rewrite H, Et; reflexivity).
       assert (E2 : lstep m w n i r1 o = (set_pc r1 (PDone r0), None)) by reflexivity.
       exists 2%nat. split; [lia|]. simpl literate. rewrite E1, E2. simpl. auto.
-    - assert (E1 : lstep m w n i r o = (decided m n r (PDone r0) true, o)) by (unfold lstep; rewrite H, Et; reflexivity).
-      exists 1%nat. split; [lia|]. simpl literate. rewrite E1. simpl. auto.
-    - set (r1 := decided m n r (PUnlockCall h) false).
+    - set (r1 := decided m n r (PUnlockCall h)).
       assert (E1 : lstep m w n i r o = (r1, o)) by (unfold lstep; rewrite H, Et; reflexivity).
-      assert (E2 : lstep m w n i r1 o = (set_pc r1 (PCall h), None)) by reflexivity.
-      set (r2 := set_pc r1 (PCall h)).
-      assert (E3 : lstep m w n i r2 None = (set_pc r2 (call m (req_query (r_req r2)) h), None)) by reflexivity.
-      exists 3%nat. split; [lia|]. simpl literate. rewrite E1, E2. unfold r2 in E3. rewrite E3. simpl.
+      assert (E2 : lstep m w n i r1 o = (set_pc r1 (hint_call h), None)) by reflexivity.
       destruct (test_break_only_hint _ _ _ _ Et) as [k [id ->]].
-      destruct (HP _ _ _ _ Et) as [->| ->]; simpl; split; eauto.
-    - assert (E1 : lstep m w n i r o = (sleeping w r f, None)) by (unfold lstep; rewrite H, Et; reflexivity).
+      destruct (HP _ _ _ _ Et) as [->| ->].
+      + assert (E3 : lstep m w n i (set_pc r1 (hint_call (Some (HPart k id)))) None =
+                     (set_pc (set_pc r1 (hint_call (Some (HPart k id)))) (PDone (R200Part k id)), None)) by reflexivity.
+        exists 3%nat. split; [lia|]. simpl literate. rewrite E1, E2, E3. simpl. auto.
+      + exists 2%nat. split; [lia|]. simpl literate. rewrite E1, E2. simpl. auto.
+    - assert (E1 : lstep m w n i r o = (sleeping r f, None)) by (unfold lstep; rewrite H, Et; reflexivity).
       exists 1%nat. split; [lia|]. simpl literate. rewrite E1. simpl. auto.
   Qed.
 
-  Lemma finished_of_test : forall r o f k, r_pc r = PTest f -> r_leaked r = false ->
+  Lemma finished_of_test : forall r o f k, r_pc r = PTest f ->
     let r' := fst (it k r o) in let o' := snd (it k r o) in
     match test m (req_query (r_req r)) f with
-    | TExit resp => r_pc r' = PDone resp /\ o' = None /\ r_leaked r' = false /\ r_waits r' = r_waits r
-    | TLeak resp => r_pc r' = PDone resp /\ o' = o /\ r_leaked r' = true /\ r_waits r' = r_waits r
-    | TBreakHint h => (exists resp, r_pc r' = PDone resp /\ is_200 resp = true) /\ o' = None /\
-                      r_leaked r' = false /\ r_waits r' = r_waits r
-    | TWait => r_pc r' = PWaiting f /\ o' = None /\ r_leaked r' = false /\ r_waits r' = S (r_waits r)
+    | TExit resp => r_pc r' = PDone resp /\ o' = None /\ r_waits r' = r_waits r
+    | TBreakHint h => r_pc r' = PDone (hint_resp h) /\ o' = None /\ r_waits r' = r_waits r
+    | TWait => r_pc r' = PWaiting f /\ o' = None /\ r_waits r' = S (r_waits r)
     end ->
-    o = Some (TR i) ->
     finished r' /\ consistent r' o' i.
   Proof.
-    intros r o f k H L r' o' Hm Ho. unfold finished, consistent, r_holds.
+    intros r o f k H r' o' Hm. unfold finished, consistent, r_holds.
     destruct (test m (req_query (r_req r)) f).
-    - destruct Hm as [A [B [C _]]]. rewrite A, B, C. split; [left; eauto|right; auto].
-    - destruct Hm as [A [B [C _]]]. rewrite A, B, C. split; [left; eauto|left; auto].
-    - destruct Hm as [[resp [A _]] [B [C _]]]. rewrite A, B, C. split; [left; eauto|right; auto].
-    - destruct Hm as [A [B [C _]]]. rewrite A, B, C. split; [right; eauto|right; auto].
-  Qed.
-
-  Lemma lstep_req' : forall r o, r_req (fst (lstep m w n i r o)) = r_req r.
-  Proof.
-    intros. unfold lstep. destruct (r_pc r); simpl; auto.
-    - destruct o; reflexivity.
-    - destruct (test m (req_query (r_req r)) f); reflexivity.
-    - destruct o; reflexivity.
+    - destruct Hm as [A [B _]]. rewrite A, B. split; [left; eauto|right; auto].
+    - destruct Hm as [A [B _]]. rewrite A, B. split; [left; eauto|right; auto].
+    - destruct Hm as [A [B _]]. rewrite A, B. split; [right; eauto|right; auto].
   Qed.
 
   (* main local progress *)
   Lemma own_progress_local : forall r o,
-    leak_ok r -> consistent r o i ->
+    consistent r o i ->
     exists k, (k <= 6)%nat /\ finished (fst (it k r o)) /\ consistent (fst (it k r o)) (snd (it k r o)) i.
   Proof.
-    intros r o L C.
-    assert (NL : (forall resp, r_pc r <> PDone resp) -> r_leaked r = false).
-    { intros Hn. destruct (r_leaked r) eqn:El; [|reflexivity]. destruct (L El) as [resp Er]. exfalso. eapply Hn; eauto. }
-    (* from a locked test *)
-    assert (FromTest : forall r0 f, r_pc r0 = PTest f -> r_leaked r0 = false ->
+    intros r o C.
+    assert (FromTest : forall r0 f, r_pc r0 = PTest f ->
               exists k, (k <= 3)%nat /\ finished (fst (it k r0 (Some (TR i)))) /\
                         consistent (fst (it k r0 (Some (TR i)))) (snd (it k r0 (Some (TR i)))) i).
-    { intros r0 f H0 L0. destruct (prog_test r0 (Some (TR i)) f H0 L0) as [k [Hk Hm]].
+    { intros r0 f H0. destruct (prog_test r0 (Some (TR i)) f H0) as [k [Hk Hm]].
       exists k. split; [exact Hk|]. eapply finished_of_test; eauto. }
-    (* from a Lock() on a free mutex *)
-    assert (FromLock : forall r0 f, (r_pc r0 = PLock f \/ r_pc r0 = PWoken f) -> r_leaked r0 = false ->
+    assert (FromLock : forall r0 f, (r_pc r0 = PLock f \/ r_pc r0 = PWoken f) ->
               exists k, (k <= 4)%nat /\ finished (fst (it k r0 None)) /\
                         consistent (fst (it k r0 None)) (snd (it k r0 None)) i).
-    { intros r0 f H0 L0.
+    { intros r0 f H0.
       assert (E1 : lstep m w n i r0 None = (set_pc r0 (PTest f), Some (TR i)))
         by (unfold lstep; destruct H0 as [H0|H0]; rewrite H0; reflexivity).
-      destruct (FromTest (set_pc r0 (PTest f)) f eq_refl L0) as [k [Hk Hf]].
+      destruct (FromTest (set_pc r0 (PTest f)) f eq_refl) as [k [Hk Hf]].
       exists (S k). split; [lia|]. simpl. rewrite E1. exact Hf. }
-    (* from a call *)
-    assert (FromCall : forall r0 h, r_pc r0 = PCall h -> r_leaked r0 = false ->
+    assert (FromCall : forall r0 h, r_pc r0 = PCall h ->
               exists k, (k <= 5)%nat /\ finished (fst (it k r0 None)) /\
                         consistent (fst (it k r0 None)) (snd (it k r0 None)) i).
-    { intros r0 h H0 L0.
+    { intros r0 h H0.
       assert (E1 : lstep m w n i r0 None = (set_pc r0 (call m (req_query (r_req r0)) h), None))
         by (unfold lstep; rewrite H0; reflexivity).
       destruct (call_pc m (req_query (r_req r0)) h) as [[resp Ec]|[f Ec]].
       - exists 1%nat. split; [lia|]. simpl. rewrite E1, Ec. simpl.
         split; [left; eexists; reflexivity|right; unfold r_holds; simpl; auto].
-      - destruct (FromLock (set_pc r0 (PLock f)) f (or_introl eq_refl) L0) as [k [Hk Hf]].
+      - destruct (FromLock (set_pc r0 (PLock f)) f (or_introl eq_refl)) as [k [Hk Hf]].
         exists (S k). split; [lia|]. simpl. rewrite E1, Ec. exact Hf. }
     unfold consistent, r_holds in C.
     destruct (r_pc r) eqn:Ep.
-    - (* PStart *)
-      rewrite NL in C by (intros; discriminate). destruct C as [[C _]|[_ ->]]; [discriminate|].
+    - destruct C as [[C _]|[_ ->]]; [discriminate|].
       assert (E1 : lstep m w n i r None = (set_pc r (PCall (lookup m (r_req r))), None))
         by (unfold lstep; rewrite Ep; reflexivity).
-      destruct (FromCall (set_pc r (PCall (lookup m (r_req r)))) _ eq_refl (NL ltac:(intros; discriminate)))
-        as [k [Hk Hf]].
+      destruct (FromCall (set_pc r (PCall (lookup m (r_req r)))) _ eq_refl) as [k [Hk Hf]].
       exists (S k). split; [lia|]. simpl. rewrite E1. exact Hf.
-    - rewrite NL in C by (intros; discriminate). destruct C as [[C _]|[_ ->]]; [discriminate|].
-      destruct (FromCall r h Ep (NL ltac:(intros; discriminate))) as [k [Hk Hf]].
-      exists k. split; [lia|exact Hf].
-    - rewrite NL in C by (intros; discriminate). destruct C as [[C _]|[_ ->]]; [discriminate|].
-      destruct (FromLock r f (or_introl Ep) (NL ltac:(intros; discriminate))) as [k [Hk Hf]].
-      exists k. split; [lia|exact Hf].
+    - destruct C as [[C _]|[_ ->]]; [discriminate|].
+      destruct (FromCall r h Ep) as [k [Hk Hf]]. exists k. split; [lia|exact Hf].
+    - destruct C as [[C _]|[_ ->]]; [discriminate|].
+      destruct (FromLock r f (or_introl Ep)) as [k [Hk Hf]]. exists k. split; [lia|exact Hf].
     - destruct C as [[_ ->]|[C _]]; [|discriminate].
-      destruct (FromTest r f Ep (NL ltac:(intros; discriminate))) as [k [Hk Hf]].
-      exists k. split; [lia|exact Hf].
+      destruct (FromTest r f Ep) as [k [Hk Hf]]. exists k. split; [lia|exact Hf].
     - exists 0%nat. split; [lia|]. simpl. split; [right; eauto|].
       unfold consistent, r_holds. rewrite Ep. exact C.
-    - rewrite NL in C by (intros; discriminate). destruct C as [[C _]|[_ ->]]; [discriminate|].
-      destruct (FromLock r f (or_intror Ep) (NL ltac:(intros; discriminate))) as [k [Hk Hf]].
-      exists k. split; [lia|exact Hf].
+    - destruct C as [[C _]|[_ ->]]; [discriminate|].
+      destruct (FromLock r f (or_intror Ep)) as [k [Hk Hf]]. exists k. split; [lia|exact Hf].
     - exists 1%nat. split; [lia|]. simpl. unfold lstep. rewrite Ep. simpl.
-      split; [left; eexists; reflexivity|right]. unfold r_holds. simpl. split; [apply NL; intros; discriminate|reflexivity].
-    - (* PUnlockCall h : unlock, then call h *)
-      assert (E1 : lstep m w n i r o = (set_pc r (PCall h), None)) by (unfold lstep; rewrite Ep; reflexivity).
-      destruct (FromCall (set_pc r (PCall h)) h eq_refl (NL ltac:(intros; discriminate))) as [k [Hk Hf]].
-      exists (S k). split; [lia|]. simpl. rewrite E1. exact Hf.
+      split; [left; eexists; reflexivity|right]. unfold r_holds. simpl. auto.
+    - (* PUnlockCall h : unlock, then call h / answer 404 *)
+      assert (E1 : lstep m w n i r o = (set_pc r (hint_call h), None)) by (unfold lstep; rewrite Ep; reflexivity).
+      destruct h as [h|].
+      + destruct (FromCall (set_pc r (PCall (Some h))) (Some h) eq_refl) as [k [Hk Hf]].
+        exists (S k). split; [lia|]. simpl. rewrite E1. exact Hf.
+      + exists 1%nat. split; [lia|]. simpl. rewrite E1. simpl.
+        split; [left; eexists; reflexivity|right; unfold r_holds; simpl; auto].
     - exists 0%nat. split; [lia|]. simpl. split; [left; eauto|].
       unfold consistent, r_holds. rewrite Ep. exact C.
   Qed.
@@ -209,33 +190,30 @@ Section Local.
   (* if the loop test would not wait, the requester gets its response *)
   Definition resp_of_test (t : tres) (resp : response) : Prop :=
     match t with
-    | TExit r' | TLeak r' => resp = r'
-    | TBreakHint _ => is_200 resp = true
+    | TExit r' => resp = r'
+    | TBreakHint h => resp = hint_resp h
     | TWait => False
     end.
 
   Lemma own_progress_ready : forall r f,
-    leak_ok r -> (r_pc r = PLock f \/ r_pc r = PWoken f) ->
+    (r_pc r = PLock f \/ r_pc r = PWoken f) ->
     test m (req_query (r_req r)) f <> TWait ->
     exists k, (k <= 4)%nat /\ exists resp, r_pc (fst (it k r None)) = PDone resp /\
       r_waits (fst (it k r None)) = r_waits r /\
       resp_of_test (test m (req_query (r_req r)) f) resp /\
-      (snd (it k r None) = None \/ r_leaked (fst (it k r None)) = true).
+      snd (it k r None) = None.
   Proof.
-    intros r f L H Hn.
-    assert (NL : r_leaked r = false).
-    { destruct (r_leaked r) eqn:El; [|reflexivity]. destruct (L El) as [resp Er]. destruct H; congruence. }
+    intros r f H Hn.
     assert (E1 : lstep m w n i r None = (set_pc r (PTest f), Some (TR i)))
       by (unfold lstep; destruct H as [H|H]; rewrite H; reflexivity).
-    destruct (prog_test (set_pc r (PTest f)) (Some (TR i)) f eq_refl NL) as [k [Hk Hm]].
+    destruct (prog_test (set_pc r (PTest f)) (Some (TR i)) f eq_refl) as [k [Hk Hm]].
     exists (S k). split; [lia|]. simpl. rewrite E1. simpl in Hm.
     change (r_req (set_pc r (PTest f))) with (r_req r) in Hm.
     change (r_waits (set_pc r (PTest f))) with (r_waits r) in Hm.
     unfold resp_of_test.
     destruct (test m (req_query (r_req r)) f) eqn:Et; try congruence.
-    - destruct Hm as [A [O [_ B]]]. eauto 10.
-    - destruct Hm as [A [_ [Lk B]]]. eauto 10.
-    - destruct Hm as [[resp [A A2]] [O [_ B]]]. eauto 10.
+    - destruct Hm as [A [O B]]. eauto 10.
+    - destruct Hm as [A [O B]]. eauto 10.
   Qed.
 
   (* when no loop test can wait, a requester that is not asleep never falls asleep *)
